@@ -18,8 +18,14 @@ Definition schema_owned (t : string) : bool :=
 Definition starts_with (p s : string) : bool := String.prefix p s.
 
 (* code that builds a schema before it is handed out: the parsers and the loader *)
+(* in ast/document.go only the four builder methods the loader calls: any other method of Schema
+   (a getter that caches, say) is code that runs on a schema already handed out *)
+Definition builder_method (fn : string) : bool :=
+  existsb (String.eqb fn) ["ast.Schema.AddTypes"; "ast.Schema.AddPossibleType"; "ast.Schema.AddImplements"; "ast.SchemaDocument.Merge"].
+
 Definition builds_schema (file fn : string) : bool :=
-  starts_with "parser/" file || String.eqb file "validator/schema.go" || String.eqb file "ast/document.go"
+  starts_with "parser/" file || String.eqb file "validator/schema.go"
+  || (String.eqb file "ast/document.go" && builder_method fn)
   || String.eqb file "lexer/lexer.go".
 
 Definition registry_function (fn : string) : bool :=
